@@ -182,6 +182,79 @@ def verify_holds(t):
         return pk == ("PUB", scheme, skid) and msg == smsg
     return False
 
+def length_guard_problems(run, r, what):
+    """Guards on the success path r of an undo operation that compare lengths of the value the producer built. The producer's
+    output has the form fixed-width parts + at most one part of unknown width x >= 0 (the encoded message / key), so such a guard
+    is a linear condition on x: it must hold for EVERY x >= 0, otherwise the round trip fails for some message length although
+    each side is fine on its own (e.g. an unseal that wants `len - 16 > 24` where the sealer emits exactly 40 bytes for an empty
+    message)."""
+    nm = run.norm
+    probs = []
+    def lin(t):
+        """(a, b, var): a*x + b with x = len(var)."""
+        if not isinstance(t, tuple) or not t:
+            return None
+        if t[0] == "int":
+            return (0, t[1], None)
+        if t[0] in ("ok", "okv") and len(t) == 2:
+            return lin(t[1])
+        if t[0] == "len" and len(t) == 2:
+            w = nm.width(t[1])
+            if w is not None:
+                return (0, w, None)
+            parts = list(t[1][1]) if (isinstance(t[1], tuple) and t[1] and t[1][0] == "cat") else [t[1]]
+            known, unknown = 0, []
+            for p_ in parts:
+                wp = nm.width(p_)
+                if wp is None:
+                    unknown.append(p_)
+                else:
+                    known += wp
+            if len(unknown) == 1:
+                u = unknown[0]
+                while isinstance(u, tuple) and u and u[0] in ("ENC", "AEAD_ENC") :
+                    u = u[2] if u[0] == "ENC" else u[4]       # a stream cipher / AEAD body is as long as its plaintext
+                return (1, known, u)
+            return None
+        if t[0] == "binop" and len(t) == 4 and t[1] in ("Add", "Sub", "AddUnchecked", "SubUnchecked"):
+            x, y = lin(t[2]), lin(t[3])
+            if x is None or y is None or (x[2] is not None and y[2] is not None and x[2] != y[2]):
+                return None
+            sg = 1 if t[1].startswith("Add") else -1
+            return (x[0] + sg * y[0], x[1] + sg * y[1], x[2] if x[2] is not None else y[2])
+        if t[0] == "call" and len(t) == 3 and len(t[2]) == 2 and re.search(r"::checked_(sub|add)$", t[1]):
+            return lin(("binop", "Sub" if t[1].endswith("sub") else "Add", t[2][0], t[2][1]))
+        return None
+    NEG = {"Gt": "Le", "Ge": "Lt", "Lt": "Ge", "Le": "Gt", "Eq": "Ne", "Ne": "Eq"}
+    def always(op, a, b):
+        return {"Gt": b > 0 and a >= 0, "Ge": b >= 0 and a >= 0, "Lt": b < 0 and a <= 0, "Le": b <= 0 and a <= 0,
+                "Eq": a == 0 and b == 0, "Ne": (a == 0 and b != 0) or (a > 0 and b > 0) or (a < 0 and b < 0)}[op]
+    for g in r.path.guards:
+        c = nm.n(g["cond"])
+        v = g["value"]
+        op = x = y = None
+        if isinstance(c, tuple) and len(c) == 4 and c[0] == "binop" and c[1] in NEG and v in (0, 1):
+            op, x, y = c[1], lin(c[2]), lin(c[3])
+            if v == 0:
+                op = NEG[op]
+        elif isinstance(c, tuple) and len(c) == 2 and c[0] == "discr" and isinstance(c[1], tuple) and c[1] and c[1][0] == "call" \
+                and re.search(r"::checked_sub$", c[1][1]) and len(c[1][2]) == 2 and v in (0, 1):
+            op, x, y = ("Ge" if v == 1 else "Lt"), lin(c[1][2][0]), lin(c[1][2][1])       # Some iff a >= b
+        if op is None or x is None or y is None:
+            continue
+        if x[2] is None and y[2] is None:
+            continue                      # no unknown width involved: decided by the evaluator already
+        if x[2] is not None and y[2] is not None and x[2] != y[2]:
+            continue
+        a, b = x[0] - y[0], x[1] - y[1]
+        if not always(op, a, b):
+            # smallest message length that violates it
+            bad = next((n for n in range(0, 4096) if not {"Gt": a * n + b > 0, "Ge": a * n + b >= 0, "Lt": a * n + b < 0, "Le": a * n + b <= 0,
+                                                          "Eq": a * n + b == 0, "Ne": a * n + b != 0}[op]), None)
+            probs.append(f"{what}: the success path requires {fmt_n(c)[:160]} == {v}, which does not hold when the variable-length part "
+                         f"({fmt_n(x[2] if x[2] is not None else y[2])[:60]}) is {bad if bad is not None else 'some number of'} bytes long")
+    return probs
+
 def compose_token(world, backend, purpose):
     """seal (through paseto-core's generic code, library nonce) then unseal of that very token."""
     crate = BACKENDS[backend]
@@ -236,6 +309,7 @@ def compose_token(world, backend, purpose):
             return out
     r2 = uoks[0]
     out["unseal_path"] = r2
+    out["problems"] += length_guard_problems(unseal, r2, "unseal∘seal")
     out["verifications"] = verification_terms(unseal, r2)
     dec = [e for e in r2.path.events if e["kind"] == "call" and e["name"].endswith("Payload>::decode")]
     out["decode_args"] = [unseal.norm.n(e["vals"][0]) for e in dec]
@@ -307,6 +381,7 @@ def compose_paserk(world, backend, op, unseal_key_arg=None):
             return out
     r2 = uoks[0]
     out["undo_path"] = r2
+    out["problems"] += length_guard_problems(undo, r2, "unwrap∘wrap")
     out["verifications"] = verification_terms(undo, r2)
     out["result"] = undo.norm.n(undo.ret_value(r2))
     return out
